@@ -14,7 +14,7 @@
    (Spec/Rounding.v): z' is v rounded once to p digits under mode m with the
    truthful accuracy. *)
 From Coq Require Import ZArith QArith List.
-From Dec Require Import Base.Words Base.QPow L3.Decimal L3.Round L3.Arith Spec.Rounding L4.Scan L4.ScanProofs.
+From Dec Require Import Base.Words Base.QPow L3.Decimal L3.Round L3.Arith Spec.Rounding L4.Scan L4.ScanProofs L4.Toa L4.ToaProofs.
 Import ListNotations.
 Open Scope Z_scope.
 
@@ -40,6 +40,25 @@ Theorem C12_parse10 : forall z s base ng r1 ds,
   (~ (MinExp <= ndig v + e <= MaxExp) -> exists z', dscan_dec z s base = PErr z' true).
 Proof. exact parse10_correct. Qed.
 Print Assumptions C12_parse10.
+
+(* The same at the level of the literal's text, for base 10 and the grammar
+   [-] digits [ "." digits ] ("e"|"E") ("+"|"-") digits  (I, F, eds are digit
+   strings, I and eds non-empty; `digval s 0` is the number a digit string
+   writes): Parse stores (I F) * 10^(+-eds - |F|) rounded once and consumes the
+   whole string. *)
+Theorem C12_parse10_literal : forall z ng I F fch sg eds,
+  all_digits I = true -> I <> [] -> all_digits F = true -> (fch = 101 \/ fch = 69) ->
+  (sg = 43 \/ sg = 45) -> all_digits eds = true -> eds <> [] -> digval eds 0 <= 1099511627776 ->
+  let s := sign_bytes ng ++ I ++ opt_frac F ++ fch :: sg :: eds in
+  let v := digval (I ++ F) 0 in
+  let e := (if sg =? 45 then - digval eds 0 else digval eds 0) - zlen F in
+  0 < v -> ndig v + 18 < 4294967296 - 18 -> zlen F < 4294967296 -> 0 <= prec z <= MaxPrec ->
+  MinExp <= ndig v + e <= MaxExp ->
+  let p := if prec z =? 0 then DefaultDecimalPrec else prec z in
+  exists z', Parse z s 10 = POk z' 10 [] /\
+    result_spec p (dmode z) ng (scaled v e) z' /\ prec z' = p /\ dmode z' = dmode z /\ WF z'.
+Proof. exact parse_efloat. Qed.
+Print Assumptions C12_parse10_literal.
 
 (* Totality: for the five legal bases and every byte string shorter than 2^30,
    Parse neither panics nor raises ErrNaN, and every error comes with a nil
